@@ -68,6 +68,10 @@ RootTgt == N("A2")
 ExtFn(prog, s, t) == IF s = INT /\ t = STR THEN "E" ELSE IF prog.extId /\ s = STR /\ t = STR THEN "C" ELSE ""
 HasExt(prog, s, t) == ExtFn(prog, s, t) # ""
 
+(* Named deviations of the protocol, used to *select* programs for replay: a program on which a deviant protocol ends differently
+   from the specified one is a program on which such a slip in the implementation becomes visible.
+     availcreator   a generated method remembers the context set of its creator instead of the availability at its creation      *)
+Dev(prog) == IF "dev" \in DOMAIN prog THEN prog.dev ELSE ""
 NoBody == [k |-> "none"]
 NewMethod(s, t, explicit, retErr, ctx, origin, avail) ==
   [src |-> s, tgt |-> t, explicit |-> explicit, retErr |-> retErr, ctx |-> ctx, dirty |-> explicit, origin |-> origin,
@@ -143,7 +147,7 @@ Conv(prog, st, m, seen, s, t, av, top) ==
           seen1 == IF s.k \in {"named", "nn"} THEN seen \cup {s.id} ELSE seen
       IN IF create THEN
            LET j == Len(st1.ms) + 1
-               st2 == [st1 EXCEPT !.ms = Append(@, WithZero(NewMethod(s, t, FALSE, FALSE, FALSE, <<m>> \o st1.ms[m].origin, av.avail), ZeroConv(prog)))]
+               st2 == [st1 EXCEPT !.ms = Append(@, WithZero(NewMethod(s, t, FALSE, FALSE, FALSE, <<m>> \o st1.ms[m].origin, IF Dev(prog) = "availcreator" THEN st1.ms[m].ctx ELSE av.avail), ZeroConv(prog)))]
                st3 == BuildTop(prog, st2, j, av.avail)
            IN IF st3.fail # "" THEN [st |-> st3, seen |-> seen1, ir |-> NoBody] ELSE CallM(st3, m, seen1, j, av.inScope)
          ELSE Rule(prog, st1, m, seen1, s, t, av, FALSE)
